@@ -22,8 +22,14 @@ class Crash(BaseException):
 
 
 class Stat:
-    def __init__(self, mode):
+    def __init__(self, mode, fs=None):
         self.st_mode = mode
+        self._fs = fs
+
+    @property
+    def st_nlink(self):
+        # environment: the target may have a second name (hard link); decided the first time the code under check asks
+        return 2 if self._fs.eng.bool("target_has_second_hard_link") else 1
 
 
 class Handle:
@@ -104,7 +110,7 @@ class ModelFS:
                 self._raise(k, what)
             if path not in self.files:
                 raise FileNotFoundError(2, "No such file")
-            r = Stat(self.files[path][1])
+            r = Stat(self.files[path][1], self)
         elif what == "open_w":
             if k:
                 self._raise(k, what)
@@ -160,6 +166,13 @@ class ModelFS:
             self.mutations.append((what, path))
             del self.files[path]
             r = None
+        elif what == "open_trunc":
+            # open(dst, 'wb') on an existing file: the data is gone from this call on, the inode (and its mode) stays
+            if k:
+                self._raise(k, what)
+            self.mutations.append((what, path))
+            self.files[path] = [(), self.files[path][1] if path in self.files else self.DEFAULT_MODE]
+            r = None
         elif what == "copy2":
             if k:
                 self._raise(k, what)
@@ -188,6 +201,10 @@ class OsStub:
     def __getattr__(self, name):
         raise core.Unsupported("os.%s is not part of the model file system" % name)
 
+    @property
+    def path(self):
+        return PathStub(self.fs)
+
     def open(self, p, flags, mode=0o777):
         # open(2): the requested mode is filtered by the process umask (an arbitrary environment value)
         return self.fs.op("os_open", p, mode)
@@ -208,9 +225,45 @@ class OsStub:
         return self.fs.op("remove", p)
 
 
+class PathStub:
+    def __init__(self, fs):
+        self.fs = fs
+
+    def __getattr__(self, name):
+        raise core.Unsupported("os.path.%s is not part of the model file system" % name)
+
+    def islink(self, p):
+        # environment: the name the user passed may be a symbolic link to the file
+        return p == TARGET and bool(self.fs.eng.bool("target_is_symlink"))
+
+    def exists(self, p):
+        return p in self.fs.files
+
+    def isfile(self, p):
+        return p in self.fs.files
+
+
 class ShutilStub:
     def __init__(self, fs):
         self.fs = fs
+
+    def __getattr__(self, name):
+        raise core.Unsupported("shutil.%s is not part of the model file system" % name)
+
+    def copyfile(self, a, b, **k):
+        # in-place copy: truncate the destination, then one write per chunk of the source (each an OS call that can fail or be the last)
+        if a not in self.fs.files:
+            raise FileNotFoundError(2, "No such file")
+        self.fs.op("open_trunc", b)
+        for chunk in self.fs.files[a][0]:
+            self.fs.op("write", b, chunk)
+        self.fs.op("close", b)
+        return b
+
+    def copy(self, a, b, **k):
+        self.copyfile(a, b)
+        self.fs.op("chmod", b, self.fs.files[a][1])
+        return b
 
     def copy2(self, a, b):
         return self.fs.op("copy2", (a, b))
@@ -282,7 +335,8 @@ class K16(Harness):
     title = "write-back over a model file system: at every crash point and under every single OS-call fault the target holds the complete original or the complete fixed text with its original mode"
     functions = ("vsg.apply_rules", "vsg.rule_list", "vsg.rule")
     stubs = (
-        "os.stat/chmod/replace/remove, shutil.copy2 and open(...,'w') are a model file system {path: (chunks, mode)}; a failing write may leave a partial chunk",
+        "os.stat/chmod/replace/remove, shutil.copy2/copyfile/copy and open(...,'w') are a model file system {path: (chunks, mode)}; a failing write may leave a partial chunk; an in-place copy truncates first",
+        "whether the target is a symbolic link / has a second hard link (os.path.islink, st_nlink) is an arbitrary environment value, decided when the code asks",
         "vhdlFile construction and rule_list loading replaced: parse error / configuration error are symbolic flags, rules are StubRules (one may raise)",
     )
     assumptions = ("os.replace is atomic", "a failing call affects only the file it operates on", "SIGKILL = nothing after the last completed OS call happens")
